@@ -318,6 +318,9 @@ func (g *TransferGen) opIssueMint() {
 	}
 	res := g.w.NftMint(c, signer, class, mintId, "uri", g.w.Acct(i, g.r.Intn(3)).String())
 	g.stat("nft.mint." + ErrClass(res.Codespace, res.Code))
+	if res.Code == 0 && strings.HasPrefix(class, "tibc-") {
+		g.w.hit("C04", fmt.Sprintf("user-minted-into-a-voucher-class class=%s id=%s (a voucher without a delivered packet)", class, mintId))
+	}
 	g.nftAfterMint(c, class, mintId, res)
 }
 
